@@ -44,7 +44,7 @@ def correspond(ctx):
                 "sub-configuration, tag: same job folder) or unchanged, every step either GENERATE_ONLY, a real run on a machine that lacks resources (the body "
                 "fails after echoing), or a real run; same or other experiment name")
     ctx.assumptions += [
-        "dict keys are strings other than \"type\" (F9 is replayed as a witness only); ints within int64; text is valid UTF-8",
+        "dict keys are strings (the key \"type\" included: such dictionaries are written wrapped, model and code alike); ints within int64; text is valid UTF-8",
         "enum values are identified by module.qualname:name; `is_folder` of a serialised data path is not compared",
         "argument validation on load is the identity on values that were validated when first set (exercised, not proved)",
         "SHA-256 itself is not verified (identifier bytes of model and implementation are compared)",
